@@ -14,6 +14,8 @@ if PREFIX == "r4":
     PROPS = {"A": "C01,C02,C06,C13,C12,C15", "B": "C03,C04,C05,C08,C12,C17", "C": "C07,C08,C14,C15,C13", "D": "C09,C11,C18,C12,C01,C07", "E": "C10,C19,C16,C12", "F": "C17,C18,C08"}
 if PREFIX == "r6":
     PROPS = {"A": "C01,C02,C06,C13,C12", "B": "C03,C04,C05,C12,C13", "C": "C07,C08,C14,C15,C13", "D": "C09,C11,C18,C07,C08", "E": "C10,C19,C16,C13", "F": "C17,C18,C08"}
+if PREFIX in ("r9", "r10"):
+    PROPS = {g: ",".join("C%02d" % n for n in range(1, 20)) for g in "ABCDEF"}      # style / area rounds: any property may be the one
 if PREFIX == "r8":
     PROPS = {"A": "C01,C02,C06,C13,C05", "B": "C03,C04,C05,C12,C13", "C": "C07,C08,C14,C15,C13", "D": "C09,C11,C18,C07,C08", "E": "C10,C19,C16,C13", "F": "C17,C18,C04,C08"}
 if PREFIX == "r7":
